@@ -566,8 +566,68 @@ def run_bound_objects(ctx, i, rng):
       ctx.check(same(got, ref_init), 'bound:init_depends_on_old_binding:' + tag, lambda: dict(case=desc))
 
 
+def run_dict_valued(ctx, i, rng):
+  """Variables whose VALUE is a dict that the caller owns (passed as an argument / captured by the module): init/apply must neither
+  write into that dict nor return a variable tree that shares a container with it."""
+  import copy
+  import jax
+  import jax.numpy as jnp
+  import flax.linen as nn
+  how = ['variable_init', 'variable_init', 'put_variable', 'sow_init'][i % 4]
+  entry = ['init', 'apply_new', 'apply_existing'][(i // 4) % 3]
+  nested = (i // 12) % 2 == 1
+  writes = 1 + (i // 24) % 2
+  desc = dict(how=how, entry=entry, nested=nested, writes=writes)
+  with ctx.case('dict_valued', i, desc, nontrivial=True):
+    class M(nn.Module):
+      @nn.compact
+      def __call__(self, d, x):
+        if how == 'variable_init':
+          v = self.variable('state', 'd', lambda: d)
+          for _ in range(writes):
+            cur = v.value
+            v.value = {'a': cur['a'] + x, **({'sub': {'b': cur['sub']['b'] * 2.0}} if nested else {})}
+          return v.value['a']
+        if how == 'put_variable':
+          if not self.has_variable('state', 'd'):
+            self.put_variable('state', 'd', d)
+          for _ in range(writes):
+            cur = self.get_variable('state', 'd')
+            self.put_variable('state', 'd', {'a': cur['a'] + x, **({'sub': {'b': cur['sub']['b'] * 2.0}} if nested else {})})
+          return self.get_variable('state', 'd')['a']
+        for _ in range(writes):
+          self.sow('state', 'd', x, init_fn=lambda: d, reduce_fn=lambda acc, y: {'a': acc['a'] + y, **({'sub': {'b': acc['sub']['b'] * 2.0}} if nested else {})})
+        return x
+
+    def fresh():
+      return {'a': jnp.asarray(1.5), **({'sub': {'b': jnp.asarray([2.0, 3.0])}} if nested else {})}
+
+    d = fresh()
+    d_ids = dict_ids(d)
+    x = jnp.asarray(0.25)
+    if entry == 'init':
+      out, vs = M().init_with_output(jax.random.key(0), d, x)
+    elif entry == 'apply_new':
+      out, vs = M().apply({}, d, x, mutable=['state'])
+    else:
+      v0 = {'state': {'d': fresh()}}
+      v0_ids = dict_ids(v0)
+      out, vs = M().apply(v0, d, x, mutable=['state'])
+      ctx.check(tree_bytes_equal(v0, {'state': {'d': fresh()}}), 'input_unchanged:variables:dict_valued_variable', lambda: dict(case=desc))
+      ctx.check(not (dict_ids(vs) & v0_ids), 'aliasing:returned_shares_container_with_input:dict_valued_variable', lambda: dict(case=desc))
+    ctx.op('%s(dict-valued variable via %s)' % (entry.split('_')[0], how))
+    ctx.check(tree_bytes_equal(d, fresh()) and jax.tree_util.tree_structure(d) == jax.tree_util.tree_structure(fresh()),
+              'input_unchanged:argument:dict_written_in_place', lambda: dict(case=desc, argument_now=repr(d)[:300], expected=repr(fresh())[:300]))
+    # sharing a container between the returned tree and an ARGUMENT is recorded, not judged: the property forbids changing the
+    # inputs during the call (checked above), it does not promise that results are disjoint from arguments
+    if dict_ids(vs) & d_ids:
+      ctx.event('note.dict_valued:returned_tree_shares_dict_with_argument')
+
+
 def run(ctx):
   log = PutLog(ctx)
+  for i in ctx.indices(48, 'dict_valued'):
+    run_dict_valued(ctx, i, ctx.rng('dict_valued', i))
   for i in ctx.indices(60 if ctx.tier == 'quick' else 600, 'bound'):
     run_bound_objects(ctx, i, ctx.rng('bound', i))
   n = 400 if ctx.tier == 'quick' else 6000
